@@ -18,9 +18,16 @@ EP = {
     "e1": hdr.IPv4EndpointOption(ipaddress.IPv4Address("192.0.2.131"), hdr.L4Protocols.UDP, 4001),
     "e2": hdr.IPv6EndpointOption(ipaddress.IPv6Address("2001:db8::132"), hdr.L4Protocols.UDP, 4002),
     "e3": hdr.IPv4EndpointOption(ipaddress.IPv4Address("192.0.2.131"), hdr.L4Protocols.UDP, 4003),
+    # the TCP twin of e1: same address and port, another endpoint (datagrams for it go to e1's socket address)
+    "e1t": hdr.IPv4EndpointOption(ipaddress.IPv4Address("192.0.2.131"), hdr.L4Protocols.TCP, 4001),
 }
 ADDR = {"e1": ("192.0.2.131", 4001), "e2": ("2001:db8::132", 4002, 0, 0), "e3": ("192.0.2.131", 4003)}
 ADDRNAME = {v: k for k, v in ADDR.items()}
+DEST = {"e1t": "e1"}
+
+
+def dn(e):
+    return DEST.get(e, e)
 SRC = ("192.0.2.139", 30490)
 GROUP_EVENTS = {5: (1, 2), 6: (3,)}
 INTERVAL = 1.0
@@ -96,6 +103,8 @@ class Sys(e1.TimedSys):
             acts.append(("set", evs[0]))
         if not held:
             acts += [("bad", "no-endpoint"), ("bad", "two-endpoints"), ("bad", "unknown-eventgroup")]
+            if "e1t" in self.endpoints:
+                acts.append(("bad", "two-endpoints-udp-tcp-twins"))
         return acts
 
     def _subscription(self, g, eps):
@@ -148,6 +157,8 @@ class Sys(e1.TimedSys):
                 subn = self._subscription(self.groups[0], [])
             elif act[1] == "two-endpoints":
                 subn = self._subscription(self.groups[0], [EP["e1"], EP["e2"]])
+            elif act[1] == "two-endpoints-udp-tcp-twins":
+                subn = self._subscription(self.groups[0], [EP["e1"], EP["e1t"]])
             else:
                 subn = self._subscription(9, [EP["e1"]])
             try:
@@ -216,19 +227,19 @@ class Sys(e1.TimedSys):
                 allowed.setdefault(evn, set()).update(p[-1].get(evn, ()))
                 allowed[evn].add(m.values[evn])
             if p[0] == "initial":
-                base.append((p[2], tuple(p[3])))
+                base.append((dn(p[2]), tuple(p[3])))
             else:
                 _, g, at_call, evs, at_start, _ = p
                 if not evs:
                     continue
-                a = [(e, tuple(evs)) for e in at_call]
-                b = [(e, tuple(evs)) for e in (at_start if at_start is not None else m.subs[g])]
+                a = [(dn(e), tuple(evs)) for e in at_call]
+                b = [(dn(e), tuple(evs)) for e in (at_start if at_start is not None else m.subs[g])]
                 alts = [x + a for x in alts] + ([x + b for x in alts] if sorted(a) != sorted(b) else [])
         for p in self.pending:
             # the value at the call itself
             pass
         if self.round_due:
-            base += [(e, tuple(GROUP_EVENTS[6])) for e in m.subs[6]]
+            base += [(dn(e), tuple(GROUP_EVENTS[6])) for e in m.subs[6]]
             for evn in GROUP_EVENTS[6]:
                 allowed.setdefault(evn, set()).add(m.values[evn])
                 allowed[evn].update(self.step_values.get(evn, ()))
@@ -268,6 +279,10 @@ def configs(ctx):
                                                  deviations=ctx.pick(1, 2), fine=0), CLOSURE))
     out.append(("cyclic-group-2-endpoints", dict(sid=sid, major=major, advs=(None, "half", "next", "next-2r"), groups=(6,),
                                                  endpoints=("e1", "e2"), deviations=ctx.pick(1, 2), fine=1), CLOSURE))
+    out.append(("manual-group-udp-tcp-twin-endpoints", dict(sid=sid, major=major, advs=(None,), groups=(5,),
+                                                            endpoints=("e1", "e1t", "e2"), deviations=1, fine=0), CLOSURE))
+    out.append(("cyclic-group-udp-tcp-twin-endpoints", dict(sid=sid, major=major, advs=(None, "next"), groups=(6,),
+                                                            endpoints=("e1", "e1t"), deviations=0, fine=0), CLOSURE))
     out.append(("both-groups", dict(sid=sid, major=major, advs=(None, "next"), groups=(5, 6), endpoints=("e1", "e2"),
                                     deviations=ctx.pick(0, 1), fine=0), CLOSURE))
     return out
